@@ -236,6 +236,14 @@ def run(ctx):
 
     # ------------------------------------------------------------------ R8
     _style_classes(ctx)
+    # the load-time trial itself: every formatter factory formats a sample
+    # record with its own format, style and arbitrary-fields setting
+    FF = LG + ".formatter.FormatterFactory"
+    fn = m.fn(FF + ".__init__")
+    r = X.compare(P, fn, X.spec_method(P, ref, "formatterfactory_init", FF),
+                  live_kw={"try_raises": False}, ref_kw={"try_raises": False})
+    _verdict(run, "C20.R9", fn, "trial formatting at load time, per factory",
+             r, m)
 
     # ------------------------------------------------------------------ R9
     # Load-time validation formats a sample record; it vouches for real
